@@ -997,6 +997,10 @@ func (tr *Trans) goalClause(env *Env, e ast.Expr) (Term, []Term) {
 		addPoint(ix)
 	}
 	env.points = nil
+	// indices the code itself used most recently (e.g. the element a range loop is looking at)
+	for _, ix := range tr.g.recentIdx {
+		addPoint(ix)
+	}
 	for _, idx := range points {
 		for _, h := range tr.g.hyps {
 			if x := h(idx); x.S != "true" {
